@@ -65,7 +65,8 @@ func runC02(c *core.Ctx) {
 		return
 	}
 	b := obs.Bind[0]
-	adm, uncl := Admits(p, nfa, argv, b.Args, b.Opts)
+	_ = nfa
+	adm, uncl := AdmitsEither(p, argv, b.Args, b.Opts)
 	if !adm && uncl {
 		c.Inc("unclaimed")
 		return
